@@ -50,10 +50,11 @@ claim("C19", "model_checking",
       "spec/Discovery.tla defines Select(tree, arguments, flags) from the user guide (eligibility by extension, directory vs "
       "--recurse, globs with * ? [..], each file once by identity, error and no-files results); TLC enumerates every tree "
       "(<=3 entries quick, <=5 thorough, out of a 12-entry universe with nested directories, upper-case and glob-character names) x "
-      "argument list (<=2 of 9 / 20 arguments; <=3 thorough) x --recurse x --alternate-extensions, checks Select's own properties "
+      "argument list (<=2 of 10 / 20 arguments; <=3 thorough) x --recurse x --alternate-extensions, checks Select's own properties "
       "(order independence, idempotence, monotone recursion, only eligible existing files) and prints each selection; ALL scenarios "
-      "are replayed into ApplicationFileScanner.determine_files_to_scan on real directory trees and a seeded sample through "
-      "`scan -l`, `scan`, `fix` and api.list_path.",
+      "are replayed into ApplicationFileScanner.determine_files_to_scan on real directory trees, a seeded sample through "
+      "`scan -l`, `scan`, `fix` and api.list_path, and every scenario whose selection spans more than one directory through scan and fix "
+      "(the processing order is not the discovery function's business). `..` is resolved against the tree.",
       "Trusted: TLC; Python's os.path.normpath as file identity and sorted() as the order; the directory trees built by the harness.",
       "TLA+ Discovery spec (Select): exhaustive TLC enumeration replayed into the real scanner, CLI and API")
 
@@ -64,7 +65,8 @@ claim("C17", "model_checking",
       "and prints each resolution; each point is written as real configuration (pyproject.toml, .pymarkdown/.yaml/.yml, --config as "
       "JSON/YAML/TOML, --set, -e/-d; rule addressed by id or alias; other layers absent or present with unrelated settings) and "
       "compared with `plugins list`, `plugins info`, and a probe scan; every configurable item of every rule gets a wrongly typed "
-      "value at each layer, lenient and strict.",
+      "value at each layer, lenient and strict, and every value the rule documentation names for an item (style tables, numbers used "
+      "in the text; 38 items) must be honoured as written at the --set, --config and default-file layers.",
       "Trusted: TLC; the harness's writers for the configuration formats; parsing of the `plugins list` / `plugins info` tables.",
       "TLA+ Config spec: complete lattice enumerated by TLC, replayed as real configuration layers")
 
@@ -128,7 +130,9 @@ claim("C07", "model_checking",
       "validated by TLC (Trace_Report): line-end / encoding shapes, rule-family documents, test/resources/rules, project documentation, "
       "a fixed pool of 6000 generated documents (VERIF_SEED picks the subset in quick) and a fixed pool of 8000 systematic "
       "container x leaf x leaf x leaf documents (all of them under 'all rules' in quick), under the default set, all rules, and each "
-      "rule alone (rotation in quick, all 46 in thorough); repeated scans are validated against Trace_Obs.",
+      "rule alone (rotation in quick, all 46 in thorough); repeated scans are validated against Trace_Obs; fix families (a trigger of each "
+      "fix-capable rule inside nested structures) and repetition families (the same construct three times) are scanned in both tiers; "
+      "groups of seven documents are scanned in ONE invocation, which must not fail and must say about each file what its solo scan says.",
       "Trusted: TLC; parsing of the report lines; line lengths computed from the file's text with universal newlines. Documents that do "
       "not parse are C01's business and are skipped (counted). Known defects of the pinned tree are listed per document in known/C07.tsv.",
       "TLA+ Report spec + batched trace validation of every scan's printed failures")
@@ -140,9 +144,10 @@ DOCS_NOTE = ("Document spaces are fixed (TLC enumerations, fixed generated / sys
 claim("C01", "model_checking",
       "spec/ParserLoop.tla models the implementation's main loop (source, requeue, closing step, the once-per-line repeat) with the variant "
       "that makes it terminate; TLC checks Termination under fairness; the pstep probe events of real parses are validated against it "
-      "(Trace_ParserLoop), so every recorded parse follows the terminating model. Every document TLC enumerates from spec/MdBlocks.tla "
-      "(2 lines exhaustively, 3 lines per abstract transition with VIEW), every document of <=3/4 lines over two link-definition alphabets, "
-      "every string over four inline alphabets, and the fixed pools are parsed with a CPU-time watchdog (with and without final newline): "
+      "(Trace_ParserLoop, in batches), so every recorded parse follows the terminating model. Every document TLC enumerates from spec/MdBlocks.tla "
+      "over 16 line alphabets (2-4 lines exhaustively, 3-4 lines per abstract transition with VIEW, positional alphabets of 3-6 lines), every "
+      "document of <=3/4 lines over two link-definition alphabets, every string over six inline alphabets (emphasis, links, code, raw HTML, "
+      "comments), position / fix / repetition families and the fixed pools are parsed with a CPU-time watchdog (with and without final newline): "
       "an exception or watchdog hit is a violation keyed by exception type, innermost function and document shape. Work = Python "
       "function entries (deterministic): pumped families unit^k (every line shape, inline delimiters) must have log-log slope < 3 and stay "
       "under a quadratic bound.", DOCS_NOTE % "C01",
@@ -158,10 +163,12 @@ claim("C02", "model_checking",
 
 claim("C03", "model_checking",
       "spec/MdBlocks.tla is the CommonMark block algorithm as a TLA+ state machine (containers, laziness, lists, headings, code, thematic "
-      "breaks, tabs, HTML blocks of kinds 2/6/7) and spec/MdInline.tla the emphasis algorithm with code spans and backslash escapes; TLC "
-      "enumerates every document over eight line alphabets (2 lines exhaustive; 3 lines per (abstract state, line shape) transition with "
-      "VIEW) with the model's block tree, and every line over {a, space, *, _} up to 6/8 characters and over {a, space, *, `, \\} up to "
-      "6/7 characters with the model's HTML (placed in a paragraph, a heading and a block quote). The real parser's "
+      "breaks, tabs, HTML blocks of kinds 2/6/7, link reference definitions) and spec/MdInline.tla the emphasis algorithm with code spans, "
+      "backslash escapes and inline links; TLC enumerates every document over 16 line alphabets (2 lines exhaustive; 3 lines per (abstract state, line shape) transition with "
+      "VIEW; positional alphabets for link reference definitions inside list items / block quotes, every tag name of HTML block start "
+      "condition 6, and containers three deep) with the model's block tree -- link reference definitions included --, and every line over "
+      "{a, space, *, _} up to 6/8, {a, space, *, `, \\} up to 6/7 and {a, [, ], (, ), *} up to 5/6 characters with the model's HTML (placed in a "
+      "paragraph, a heading and a block quote). The real parser's "
       "HTML is parsed back into the same canonical tree and compared. A disagreement is a violation only if corroborated: the vendored "
       "markdown-it-py must give the model's result; otherwise the document is in the contested region (counted; > 5 % is a machinery failure).",
       DOCS_NOTE % "C03", "TLA+ reference models (MdBlocks, MdInline) enumerated by TLC, replayed into parser + HTML generator, corroborated by markdown-it")
@@ -207,7 +214,8 @@ claim("C11", "model_checking",
       "points (between any two lines) x pragma forms (both prefixes, id / alias / upper case / two ids / rule that does not fire, N in "
       "1..3, nine malformed forms, two overlapping pragmas) TLC (Trace_Pragma) evaluates the relation against the observed failures and "
       "pragma errors; the parser side (token positions shifted, same HTML) and fix mode (pragma lines stay in front of their line) are "
-      "compared by the harness.", DOCS_NOTE % "C11", "TLA+ Pragma relation evaluated by TLC on real insertions")
+      "compared by the harness; a document scanned / fixed right after a copy that carries pragmas naming its rules must get its solo "
+      "result (a pragma belongs to its file).", DOCS_NOTE % "C11", "TLA+ Pragma relation evaluated by TLC on real insertions")
 
 claim("C20", "model_checking",
       "spec/Ext.tla: Parse(S, d) = Parse(S cap Trig(d), d). Each document is parsed under subsets S of the six extensions (all 64 for the "
